@@ -7,7 +7,7 @@
    (ANY int64), the clock differences (any int64). int/int64/time.Duration are 64-bit (linux/amd64). *)
 From Coq Require Import List ZArith Bool Lia Arith.
 Import ListNotations.
-From GU Require Import C14.Model C14.Proofs.
+From GU Require Import C14.Model C14.Proofs C14.GoBase C14.Gen C14.GenModel C14.ProofsGen.
 
 (* ---------------------------------------------------------------------------------------------- *)
 (* the retry loop: every policy with RetryMax >= 1, EVERY outcome script (of any length; attempts beyond the script
@@ -85,47 +85,67 @@ Proof. intros cfg ctx0 script sched He. unfold run. rewrite He. reflexivity. Qed
 Print Assumptions disabled_policy_single_attempt.
 
 (* ---------------------------------------------------------------------------------------------- *)
-(* the waits *)
+(* the waits — statements about the definitions REGENERATED from utils/http/retry_policy.go on every run
+   (Gen.v: BasicRetryPolicy_Apply, LinearBackoffPolicy_Apply, ExponentialBackoffPolicy_Apply, findRetryAfter; [gen_apply]
+   indexes the three Apply methods by policy kind).  [server_hint] / [consider_hint] are the specification of what a
+   Retry-After header stands for. *)
 Local Open Scope Z_scope.
+
+(* the generated definitions coincide with the hand-written model functions (which the retry-client and the
+   third-party parts of the model, and the lemmas of Proofs.v, are phrased with) *)
+Theorem gen_matches_model : forall k consider min max n r o, 0 <= n -> 0 <= min ->
+  gen_apply k consider min max n r o = apply k consider min max n r o.
+Proof. exact ProofsGen.gen_matches_model. Qed.
+Print Assumptions gen_matches_model.
 
 (* A Retry-After value replaces the policy's wait exactly when that is enabled: with the header considered, status
    429/503 and a value that parses (seconds, or a date), the wait IS that value (seconds clamped to [0, MaxInt64/1e9],
-   no wrap-around; dates clamped at 0) whatever the policy; in every other case it is the policy's own wait. *)
+   no wrap-around; dates clamped at 0) whatever the policy; in every other case it is what the same policy computes
+   with the header disabled and no response. *)
 Theorem retry_after_replaces_exactly_when_enabled : forall k consider min max n r o,
-  (o_date o = None -> o_rfc1123 o = None) ->
-  (forall v, consider = true -> server_hint r o = Some v -> apply k consider min max n r o = v) /\
-  (consider = false \/ server_hint r o = None -> apply k consider min max n r o = plain k min max n o).
+  0 <= n -> 0 <= min -> (o_date o = None -> o_rfc1123 o = None) ->
+  (forall v, consider = true -> server_hint r o = Some v -> gen_apply k consider min max n r o = v) /\
+  (consider = false \/ server_hint r o = None ->
+   gen_apply k consider min max n r o = gen_apply k false min max n None o).
 Proof.
-  intros k consider min max n r o H. rewrite (apply_spec k consider min max n r o H). split.
-  - intros v -> Hv. simpl. now rewrite Hv.
-  - intros [->|Hn]; [reflexivity|]. unfold consider_hint. rewrite Hn. now destruct consider.
+  intros k consider min max n r o Hn Hmin H. split.
+  - intros v -> Hv. rewrite ProofsGen.gen_matches_model, (apply_spec k true min max n r o H) by assumption.
+    simpl. now rewrite Hv.
+  - intros Hc. rewrite !ProofsGen.gen_plain; auto.
+    destruct Hc as [->|Hc]; [reflexivity|]. unfold consider_hint. rewrite Hc. now destruct consider.
 Qed.
 Print Assumptions retry_after_replaces_exactly_when_enabled.
 
-Theorem wait_constant : forall min max n o, plain Basic min max n o = min.
-Proof. reflexivity. Qed.
+Theorem wait_constant : forall consider min max n r o,
+  0 <= n -> 0 <= min -> (o_date o = None -> o_rfc1123 o = None) -> consider_hint consider r o = None ->
+  BasicRetryPolicy_Apply consider min max n r o = min.
+Proof. intros. now rewrite (ProofsGen.gen_plain Basic). Qed.
 Print Assumptions wait_constant.
 
 (* linear: for EVERY attempt number and every jitter draw, as long as (n+1)*max is representable *)
-Theorem wait_linear_range : forall min max n o,
+Theorem wait_linear_range : forall consider min max n r o,
   0 <= min <= max -> 0 <= n -> (n + 1) * max <= max_i64 ->
   0 <= o_jitter o <= Z.max 0 (max - min) ->
-  (n + 1) * min <= plain Linear min max n o <= (n + 1) * max.
-Proof. exact plain_linear_range. Qed.
+  (o_date o = None -> o_rfc1123 o = None) -> consider_hint consider r o = None ->
+  (n + 1) * min <= LinearBackoffPolicy_Apply consider min max n r o <= (n + 1) * max.
+Proof. intros. rewrite (ProofsGen.gen_plain Linear) by (auto; lia). now apply plain_linear_range. Qed.
 Print Assumptions wait_linear_range.
 
 (* exponential: for EVERY attempt number (n >= 1024 makes the power +Inf, min = 0 then gives NaN) and EVERY value the
    platform may return for an out-of-range conversion; min < 2^53 ns (104 days) so that float64(min) is exact *)
-Theorem wait_exponential_range : forall min max n o,
+Theorem wait_exponential_range : forall consider min max n r o,
   0 <= min < 2 ^ 53 -> min <= max <= max_i64 -> 0 <= n -> in_i64 (o_impl o) ->
-  min <= plain Exponential min max n o <= max.
-Proof. intros. now apply exp_range. Qed.
+  (o_date o = None -> o_rfc1123 o = None) -> consider_hint consider r o = None ->
+  min <= ExponentialBackoffPolicy_Apply consider min max n r o <= max.
+Proof. intros. rewrite (ProofsGen.gen_plain Exponential) by (auto; lia). now apply exp_range. Qed.
 Print Assumptions wait_exponential_range.
 
-Theorem wait_exponential_monotone : forall min max n1 n2 o,
+Theorem wait_exponential_monotone : forall consider min max n1 n2 r1 r2 o,
   0 <= min < 2 ^ 53 -> min <= max <= max_i64 -> 0 <= n1 <= n2 -> in_i64 (o_impl o) ->
-  plain Exponential min max n1 o <= plain Exponential min max n2 o.
-Proof. intros. now apply exp_monotone_le. Qed.
+  (o_date o = None -> o_rfc1123 o = None) ->
+  consider_hint consider r1 o = None -> consider_hint consider r2 o = None ->
+  ExponentialBackoffPolicy_Apply consider min max n1 r1 o <= ExponentialBackoffPolicy_Apply consider min max n2 r2 o.
+Proof. intros. rewrite !(ProofsGen.gen_plain Exponential) by (auto; lia). now apply exp_monotone_le. Qed.
 Print Assumptions wait_exponential_monotone.
 
 (* never negative (and representable): every policy, with or without server hint, every attempt number, every
@@ -134,8 +154,8 @@ Print Assumptions wait_exponential_monotone.
    fixes/C14-linear-backoff-overflow.patch — linear policy, (n+1)*wait beyond int64; both reproduced by the harness.) *)
 Theorem wait_non_negative : forall k consider min max n r o,
   0 <= min <= max -> max <= max_i64 -> 0 <= n -> oracle_ok min max o ->
-  0 <= apply k consider min max n r o <= max_i64.
-Proof. exact apply_nonneg. Qed.
+  0 <= gen_apply k consider min max n r o <= max_i64.
+Proof. intros. rewrite ProofsGen.gen_matches_model by lia. now apply apply_nonneg. Qed.
 Print Assumptions wait_non_negative.
 
 (* ---------------------------------------------------------------------------------------------- *)
@@ -159,6 +179,14 @@ Example waits_ex :
   plain Exponential 0 30000000000 1023 o_ex = 0 /\
   plain Exponential 0 30000000000 1024 o_ex = 30000000000 /\
   plain Linear 1000000000 1000000000 (2 ^ 40) o_ex = max_i64.
+Proof. vm_compute. repeat split; reflexivity. Qed.
+
+Example gen_ex :
+  gen_apply Basic true 0 0 0 (Some (mkResp 503 (Some [57;50;50;51;51;55;50;48;51;55]))) o_ex = 9223372036000000000 /\
+  LinearBackoffPolicy_Apply false 800000000 1200000000 2 None o_ex = 2850000000 /\
+  LinearBackoffPolicy_Apply true 1000000000 1000000000 (2 ^ 40) None o_ex = max_i64 /\
+  ExponentialBackoffPolicy_Apply false 1000000000 30000000000 3 None o_ex = 8000000000 /\
+  ExponentialBackoffPolicy_Apply false 0 30000000000 1024 None o_ex = 30000000000.
 Proof. vm_compute. repeat split; reflexivity. Qed.
 
 Definition cfg_ex : rcfg := mkCfg true 3 false CtxCancel 7.
